@@ -1,0 +1,6 @@
+//go:build verif
+
+package web
+
+// VerifURLMatches returns the intervals urlRE matches in s (what TextToHTML wraps).
+func VerifURLMatches(s string) [][]int { return urlRE.FindAllStringIndex(s, -1) }
